@@ -42,7 +42,7 @@ func ruleMarkerHelpers(rule string) func(p *Prog, r *Result) {
 			h := guardPol(pa, "has", TM(el), TM(kP))
 			b := guardPol(pa, "kind", mLookup(el, kP), "bool")
 			e := guardPol(pa, "eq", mOr(mLookup(el, kP), vP), nil)
-			if h == 1 && b == 1 && e == 1 {
+			if h != -1 && b == 1 && e == 1 {
 				return 1
 			}
 			if h == -1 || b == -1 || e == -1 || guardPol(pa, "kind", TM(el), "map") == -1 {
